@@ -5,6 +5,7 @@ package harness
 import (
 	"math"
 	"sort"
+	"strconv"
 	"strings"
 	"testing"
 	"time"
@@ -247,7 +248,39 @@ func (e *c13Env) state(ctx sdk.Context) string {
 	}
 	return "L=" + strings.Join(ls, ";") + "|K=" + strings.Join(ks, ";") + "|F=" + strings.Join(fs, ";") + "|B=" + strings.Join(bs, ";") +
 		"|T=" + strings.Join(ts, ";") + "|C=" + strings.Join(cs, ";") + "|W=" + strings.Join(ws, ";") +
-		"|A=" + strings.Join(as, ";") + "|E=" + joinU(es) + "|X=" + joinU(xs) + "|G=" + joinU(gs)
+		"|A=" + strings.Join(as, ";") + "|E=" + joinU(es) + "|X=" + joinU(xs) + "|G=" + joinU(gs) +
+		"|S=" + strings.Join(e.aucs(ctx), ";") + "|N=" + u(app.AuctionKeeper.GetAuctionID(ctx))
+}
+
+// aucs: the running first-generation surplus and debt auctions, sorted by id
+func (e *c13Env) aucs(ctx sdk.Context) []string {
+	type row struct {
+		id uint64
+		s  string
+	}
+	var rows []row
+	bidder := func(a sdk.AccAddress) string {
+		if a == nil || a.Empty() {
+			return "-"
+		}
+		return u(uint64(e.ownerIdx(a.String())))
+	}
+	for appID := uint64(1); appID <= 2; appID++ {
+		for _, a := range e.app.AuctionKeeper.GetSurplusAuctions(ctx, appID) {
+			rows = append(rows, row{a.AuctionId, u(a.AuctionId) + ":" + u(a.AppId) + ":" + u(a.AssetId) + ":s:" + a.SellToken.Amount.String() + ":" +
+				a.Bid.Amount.String() + ":" + bidder(a.Bidder) + ":" + i64(a.EndTime.Unix()) + ":" + i64(a.BidEndTime.Unix())})
+		}
+		for _, a := range e.app.AuctionKeeper.GetDebtAuctions(ctx, appID) {
+			rows = append(rows, row{a.AuctionId, u(a.AuctionId) + ":" + u(a.AppId) + ":" + u(a.AssetId) + ":d:" + a.ExpectedUserToken.Amount.String() + ":" +
+				a.ExpectedMintedToken.Amount.String() + ":" + bidder(a.Bidder) + ":" + i64(a.EndTime.Unix()) + ":" + i64(a.BidEndTime.Unix())})
+		}
+	}
+	sort.Slice(rows, func(i, j int) bool { return rows[i].id < rows[j].id })
+	var out []string
+	for _, r := range rows {
+		out = append(out, r.s)
+	}
+	return out
 }
 
 func c13B(b bool) string {
@@ -337,6 +370,111 @@ func (e *c13Env) actCount(ctx sdk.Context, before c13ActSnap, gen string) {
 	}
 }
 
+// begin1 runs the REAL first-generation begin-blocker (called directly: x/auction/module.go has the call commented out) and records
+// which close path every auction that disappeared took (statistics only).
+func (e *c13Env) begin1(ctx sdk.Context) {
+	keysField := e.amapKeysField(ctx)
+	snap := e.actSnapshot(ctx)
+	before := e.aucs(ctx)
+	auction.BeginBlocker(ctx, e.app.AuctionKeeper, &e.app.AssetKeeper, &e.app.CollectorKeeper, &e.app.EsmKeeper)
+	e.tr.Count("act:gen1")
+	after := map[string]string{}
+	for _, r := range e.aucs(ctx) {
+		after[strings.SplitN(r, ":", 2)[0]] = r
+	}
+	for _, r := range before {
+		f := strings.Split(r, ":")
+		appID, _ := strconv.ParseUint(f[1], 10, 64)
+		esm := false
+		if st, found := e.app.EsmKeeper.GetESMStatus(ctx, appID); found && st.Status {
+			esm = true
+		}
+		kind := map[string]string{"s": "surplus", "d": "debt"}[f[3]]
+		now, ok := after[f[0]]
+		switch {
+		case !ok && esm && f[6] != "-":
+			e.tr.Count("close1:" + kind + ":shutdown-with-bid")
+		case !ok && esm:
+			e.tr.Count("close1:" + kind + ":shutdown-no-bid")
+		case !ok:
+			e.tr.Count("close1:" + kind + ":winner")
+		case now != r:
+			e.tr.Count("close1:" + kind + ":restart")
+		}
+	}
+	for _, k := range e.amapKeys(ctx) {
+		m, _ := e.app.CollectorKeeper.GetAuctionMappingForApp(ctx, k[0], k[1])
+		if m.IsAuctionActive && !snap.active[k] {
+			if m.IsSurplusAuction {
+				e.tr.Count("act:gen1:surplus-started")
+			} else {
+				e.tr.Count("act:gen1:debt-started")
+			}
+		}
+	}
+	e.tr.Line("lk.begin1", i64(ctx.BlockTime().Unix()), keysField, "ok", e.state(ctx))
+}
+
+// gen1Corpus: every close path of the first-generation surplus and debt auctions, directed (first in the run after the
+// second-generation witnesses): start at the threshold boundary, optional bid through the message router, optional emergency
+// shutdown, then the begin-blocker after (or, under shutdown, before) the end of the window.
+func (e *c13Env) gen1Corpus(base sdk.Context, surplus, withBid, shutdown bool) {
+	ctx, _ := base.CacheContext()
+	app, tr := e.app, e.tr
+	ck := app.CollectorKeeper
+	if err := ck.WasmSetCollectorLookupTable(ctx, &bindings.MsgSetCollectorLookupTable{AppID: 1, CollectorAssetID: c13AssetCmst,
+		SecondaryAssetID: c13AssetHarbor, SurplusThreshold: sdk.NewInt(10000000), DebtThreshold: sdk.NewInt(5000000), LockerSavingRate: sdk.MustNewDecFromStr("0.1"),
+		LotSize: sdk.NewInt(200000), BidFactor: sdk.MustNewDecFromStr("0.01"), DebtLotSize: sdk.NewInt(3000000)}); err != nil {
+		e.t.Fatal(err)
+	}
+	app.AuctionKeeper.SetAuctionParams(ctx, auctiontypes.AuctionParams{AppId: 1, AuctionDurationSeconds: c13AucDur, Buffer: sdk.MustNewDecFromStr("1.2"),
+		Cusp: sdk.MustNewDecFromStr("0.6"), Step: sdk.NewInt(1), PriceFunctionType: 1, SurplusId: 1, DebtId: 2, DutchId: 3, BidDurationSeconds: c13BidDur})
+	tr.Line("lk.begin", "assets=1,2,3,4", "apps=1,2", e.collkField(ctx), "adur="+u(c13AucDur), "bdur="+u(c13BidDur), "bf=10000000000000000")
+	tr.Count("seq:gen1corpus")
+	e.mint(ctx, e.users[1], "", c13AssetHarbor, sdk.NewInt(1000000000))
+	e.cfgAmap(ctx, 1, c13AssetCmst, surplus, !surplus, false)
+	funded := sdk.NewInt(10200000) // exactly surplus threshold + lot
+	if !surplus {
+		funded = sdk.NewInt(4800000) // exactly debt threshold − lot
+	}
+	out := e.atomic(ctx, func(cc sdk.Context) error {
+		e.mint(cc, nil, "auctionV1", c13AssetCmst, funded)
+		if err := app.BankKeeper.SendCoinsFromModuleToModule(cc, "auctionV1", "collectorV1", sdk.NewCoins(sdk.NewCoin(c13Denom[c13AssetCmst], funded))); err != nil {
+			return err
+		}
+		return ck.SetNetFeeCollectedData(cc, 1, c13AssetCmst, funded)
+	})
+	tr.Line("lk.penalty", "1", u(c13AssetCmst), funded.String(), out, e.state(ctx))
+	step := func(secs int64) {
+		ctx = ctx.WithBlockTime(ctx.BlockTime().Add(time.Duration(secs) * time.Second)).WithBlockHeight(ctx.BlockHeight() + 1)
+	}
+	step(6)
+	e.begin1(ctx) // the auction starts
+	step(6)
+	if withBid {
+		now := i64(ctx.BlockTime().Unix())
+		if surplus {
+			out := e.deliver(ctx, &auctiontypes.MsgPlaceSurplusBidRequest{AuctionId: 1, Bidder: e.users[1].String(),
+				Amount: sdk.NewCoin(c13Denom[c13AssetHarbor], sdk.NewInt(150000)), AppId: 1, AuctionMappingId: 1})
+			tr.Line("lk.sbid", "1", "1", "1", "150000", now, out, e.state(ctx))
+		} else {
+			x := sdk.NewInt(1000000)
+			e.mint(ctx, e.users[1], "", c13AssetCmst, x)
+			tr.Line("lk.fund", "1", u(c13AssetCmst), x.String(), "ok", e.state(ctx))
+			out := e.deliver(ctx, &auctiontypes.MsgPlaceDebtBidRequest{AuctionId: 1, Bidder: e.users[1].String(),
+				Bid: sdk.NewCoin(c13Denom[c13AssetHarbor], sdk.NewInt(2500000)), ExpectedUserToken: sdk.NewCoin(c13Denom[c13AssetCmst], sdk.NewInt(200000)), AppId: 1, AuctionMappingId: 2})
+			tr.Line("lk.dbid", "1", "1", "1", "2500000", "200000", now, out, e.state(ctx))
+		}
+	}
+	if shutdown {
+		e.cfgSwitch(ctx, "esm", 1, true)
+		step(6)
+	} else {
+		step(c13AucDur + 10)
+	}
+	e.begin1(ctx) // shutdown: wound down at once; otherwise: the window is over — winner, or restart when there was no bid
+}
+
 // activationSequence: thresholds against net fees. Net fees are steered to the two boundaries (surplus threshold + lot, debt
 // threshold − lot) and their neighbours, then the REAL begin-blockers decide: x/auction.BeginBlocker (first generation; note that
 // x/auction/module.go:168 has its call commented out — the function is exercised here as it stands) and
@@ -357,14 +495,17 @@ func (e *c13Env) activationSequence(base sdk.Context, nops int) {
 		}
 	}
 	for _, a := range []uint64{1, 2} {
-		app.AuctionKeeper.SetAuctionParams(ctx, auctiontypes.AuctionParams{AppId: a, AuctionDurationSeconds: 4000000000, Buffer: sdk.MustNewDecFromStr("1.2"),
-			Cusp: sdk.MustNewDecFromStr("0.6"), Step: sdk.NewInt(1), PriceFunctionType: 1, SurplusId: 1, DebtId: 2, DutchId: 3, BidDurationSeconds: 4000000000})
+		app.AuctionKeeper.SetAuctionParams(ctx, auctiontypes.AuctionParams{AppId: a, AuctionDurationSeconds: c13AucDur, Buffer: sdk.MustNewDecFromStr("1.2"),
+			Cusp: sdk.MustNewDecFromStr("0.6"), Step: sdk.NewInt(1), PriceFunctionType: 1, SurplusId: 1, DebtId: 2, DutchId: 3, BidDurationSeconds: c13BidDur})
 	}
 	app.NewaucKeeper.SetAuctionParams(ctx, auctionsV2types.AuctionParams{AuctionDurationSeconds: 4000000000, Step: sdk.MustNewDecFromStr("0.1"),
 		WithdrawalFee: sdk.ZeroDec(), ClosingFee: sdk.ZeroDec(), MinUsdValueLeft: 100000, BidFactor: sdk.MustNewDecFromStr("0.1"),
 		LiquidationPenalty: sdk.MustNewDecFromStr("0.1"), AuctionBonus: sdk.ZeroDec()})
-	tr.Line("lk.begin", "assets=1,2,3,4", "apps=1,2", e.collkField(ctx))
+	tr.Line("lk.begin", "assets=1,2,3,4", "apps=1,2", e.collkField(ctx), "adur="+u(c13AucDur), "bdur="+u(c13BidDur), "bf=10000000000000000")
 	tr.Count("seq:activation")
+	for _, usr := range e.users { // secondary asset for surplus bids (outside the projection)
+		e.mint(ctx, usr, "", c13AssetHarbor, sdk.NewInt(1000000000))
+	}
 	for _, a := range []uint64{1, 2} {
 		e.cfgSwitch(ctx, "english", a, rng.Chance(80))
 	}
@@ -399,11 +540,70 @@ func (e *c13Env) activationSequence(base sdk.Context, nops int) {
 		}
 	}
 	for op := 0; op < nops; op++ {
-		ctx = ctx.WithBlockTime(ctx.BlockTime().Add(6 * time.Second)).WithBlockHeight(ctx.BlockHeight() + 1)
+		gap := []int64{6, 6, 60, 400, 1500}[rng.Intn(5)]
+		ctx = ctx.WithBlockTime(ctx.BlockTime().Add(time.Duration(gap) * time.Second)).WithBlockHeight(ctx.BlockHeight() + 1)
 		p := rng.Intn(100)
 		k := keys[rng.Intn(len(keys))]
 		switch {
-		case p < 35: // steer to a boundary
+		case p < 18: // a bid on a running first-generation auction, through the message router
+			rows := e.aucs(ctx)
+			if len(rows) == 0 {
+				continue
+			}
+			f := strings.Split(rows[rng.Intn(len(rows))], ":")
+			aucID, _ := strconv.ParseUint(f[0], 10, 64)
+			appID, _ := strconv.ParseUint(f[1], 10, 64)
+			asset, _ := strconv.ParseUint(f[2], 10, 64)
+			lot, _ := sdk.NewIntFromString(f[4])
+			other, _ := sdk.NewIntFromString(f[5])
+			ui := rng.Intn(len(e.users))
+			now := i64(ctx.BlockTime().Unix())
+			change := sdk.MustNewDecFromStr("0.01").MulInt(other).Ceil().TruncateInt()
+			if f[3] == "s" {
+				var amt sdk.Int
+				if f[6] == "-" {
+					amt = sdk.NewInt(int64(rng.Intn(3))) // 0 is rejected, > 0 accepted
+					if rng.Chance(70) {
+						amt = sdk.NewInt(int64(1 + rng.Intn(100000)))
+					}
+				} else {
+					amt = other.Add(change).AddRaw(int64(rng.Intn(3) - 1)) // min-1, min, min+1
+					if rng.Chance(40) {
+						amt = other.Add(change).AddRaw(int64(rng.Intn(50000)))
+					}
+				}
+				out := e.deliver(ctx, &auctiontypes.MsgPlaceSurplusBidRequest{AuctionId: aucID, Bidder: e.users[ui].String(),
+					Amount: sdk.NewCoin(c13Denom[c13AssetHarbor], amt), AppId: appID, AuctionMappingId: 1})
+				tr.Count("sbid:" + out)
+				tr.Line("lk.sbid", u(appID), u(aucID), u(uint64(ui)), amt.String(), now, out, e.state(ctx))
+			} else {
+				exp := lot
+				if rng.Chance(8) {
+					exp = lot.AddRaw(1)
+				}
+				var bid sdk.Int
+				if f[6] == "-" {
+					bid = other.AddRaw(int64(rng.Intn(3) - 1))
+				} else {
+					bid = other.Sub(change).AddRaw(int64(rng.Intn(3) - 1))
+				}
+				if rng.Chance(40) && bid.IsPositive() {
+					bid = sdk.NewIntFromUint64(rng.U64() >> 8).Mod(bid)
+				}
+				if bid.IsNegative() {
+					bid = sdk.ZeroInt()
+				}
+				if e.balOf(ctx, e.users[ui], asset).LT(lot) && rng.Chance(85) {
+					x := lot.MulRaw(2)
+					e.mint(ctx, e.users[ui], "", asset, x)
+					tr.Line("lk.fund", u(uint64(ui)), u(asset), x.String(), "ok", e.state(ctx))
+				}
+				out := e.deliver(ctx, &auctiontypes.MsgPlaceDebtBidRequest{AuctionId: aucID, Bidder: e.users[ui].String(),
+					Bid: sdk.NewCoin(c13Denom[c13AssetHarbor], bid), ExpectedUserToken: sdk.NewCoin(c13Denom[asset], exp), AppId: appID, AuctionMappingId: 2})
+				tr.Count("dbid:" + out)
+				tr.Line("lk.dbid", u(appID), u(aucID), u(uint64(ui)), bid.String(), exp.String(), now, out, e.state(ctx))
+			}
+		case p < 40: // steer to a boundary
 			cl, _ := ck.GetCollectorLookupTable(ctx, k[0], k[1])
 			var t sdk.Int
 			switch rng.Intn(4) {
@@ -419,7 +619,7 @@ func (e *c13Env) activationSequence(base sdk.Context, nops int) {
 			t = t.AddRaw(int64(rng.Intn(3) - 1))
 			steer(k, t)
 			tr.Count("act:steer")
-		case p < 45:
+		case p < 46:
 			m, found := ck.GetAuctionMappingForApp(ctx, k[0], k[1])
 			if found && rng.Chance(70) { // governance resets a finished auction / changes the kind
 				sp := m.IsSurplusAuction
@@ -433,33 +633,15 @@ func (e *c13Env) activationSequence(base sdk.Context, nops int) {
 			}
 		case p < 52:
 			e.cfgSwitch(ctx, []string{"esm", "kill", "english"}[rng.Intn(3)], k[0], rng.Chance(50))
-		case p < 76: // second-generation begin-blocker
+		case p < 66: // second-generation begin-blocker
 			keysField := e.amapKeysField(ctx)
 			snap := e.actSnapshot(ctx)
 			liquidationsV2.BeginBlocker(ctx, abci.RequestBeginBlock{}, app.NewliqKeeper)
 			e.actCount(ctx, snap, "gen2")
 			tr.Count("act:gen2")
 			tr.Line("lk.activate", "2", keysField, "ok", e.state(ctx))
-		default: // first-generation begin-blocker
-			// not modelled: the emergency wind-down of RUNNING first-generation auctions (SurplusAuctionClose / DebtAuctionClose with
-			// the ESM status set close every auction of the app); such blocks are left to the second-generation sweep
-			windDown := false
-			for _, mk := range e.amapKeys(ctx) {
-				m, _ := ck.GetAuctionMappingForApp(ctx, mk[0], mk[1])
-				if st, found := app.EsmKeeper.GetESMStatus(ctx, mk[0]); found && st.Status && m.IsAuctionActive {
-					windDown = true
-				}
-			}
-			if windDown {
-				tr.Count("act:gen1-skipped-esm-wind-down")
-				continue
-			}
-			keysField := e.amapKeysField(ctx)
-			snap := e.actSnapshot(ctx)
-			auction.BeginBlocker(ctx, app.AuctionKeeper, &app.AssetKeeper, &app.CollectorKeeper, &app.EsmKeeper)
-			e.actCount(ctx, snap, "gen1")
-			tr.Count("act:gen1")
-			tr.Line("lk.activate", "1", keysField, "ok", e.state(ctx))
+		default: // the whole first-generation begin-blocker: starts, restarts, every close path
+			e.begin1(ctx)
 		}
 	}
 	ms, _ := ck.GetAllAuctionMappingForApp(ctx)
@@ -489,6 +671,8 @@ func (e *c13Env) collkField(ctx sdk.Context) string {
 func c13T(ctx sdk.Context) (string, string) { return i64(ctx.BlockTime().Unix()), i64(ctx.BlockHeight()) }
 
 const c13Year = 31557600
+const c13AucDur = 3000
+const c13BidDur = 600
 
 // powField mirrors the two lines of CalculationOfRewards that produce the arguments of its one math.Pow call and performs that
 // call: `xbits:ybits:pbits`. The Lean model recomputes both arguments from ITS state (rate, time stamps) and the driver reports a
@@ -1140,6 +1324,13 @@ func TestC13(t *testing.T) {
 	// corpus first: the two witnesses of the second-generation close defect, on the real chain code
 	e.v2Sequence(base, "surplus", 200000, 2000000, 20000000, 200000)
 	e.v2Sequence(base, "debt", 200000, 2000000, 4700000, 1500000)
+	for _, surplus := range []bool{true, false} {
+		for _, withBid := range []bool{true, false} {
+			for _, shutdown := range []bool{true, false} {
+				e.gen1Corpus(base, surplus, withBid, shutdown)
+			}
+		}
+	}
 	seqs := scale(60, 1200)
 	maxOps := scale(70, 160)
 	for s := 0; s < seqs; s++ {
